@@ -433,4 +433,75 @@ theorem instance_local (σ : State) (c : ClassId) (kw : List (KwName × KwVal))
       · split <;> rfl
   · rfl
 
+/-! ## well-formedness is decidable; the runner checks it after every step of every history -/
+
+theorem mem_of_assoc {α β : Type} [DecidableEq α] (l : List (α × β)) (a : α) (b : β)
+    (h : assoc l a = some b) : (a, b) ∈ l := by
+  induction l with
+  | nil => simp [assoc] at h
+  | cons p r ih =>
+    obtain ⟨a0, b0⟩ := p
+    simp only [assoc] at h
+    split at h
+    · rename_i e; simp only [Option.some.injEq] at h; subst h; subst e; exact List.mem_cons_self ..
+    · exact List.mem_cons_of_mem _ (ih h)
+
+theorem WF_of_wfB (σ : State) (h : wfB σ = true) : WF σ := by
+  simp only [wfB, List.all_eq_true, List.mem_range, Bool.and_eq_true, decide_eq_true_eq] at h
+  constructor
+  · intro c x hx
+    rcases Nat.lt_or_ge c σ.classes.length with hc | hc
+    · exact (h c hc).1 x hx
+    · simp [State.mroOf, List.getElem?_eq_none hc] at hx
+  · intro c a r hr
+    rcases Nat.lt_or_ge c σ.classes.length with hc | hc
+    · have hall := (h c hc).2
+      rcases hr with hr | hr | hr
+      · have := hall _ (mem_of_assoc _ _ _ hr); simpa using this
+      · have := hall _ (mem_of_assoc _ _ _ hr); simpa using this
+      · have := hall _ (mem_of_assoc _ _ _ hr); simpa using this
+    · have : σ.ownOf c = [] := by simp [State.ownOf, List.getElem?_eq_none hc]
+      simp [this, assoc] at hr
+
+/-! ## the full statement and where the code falls short of it: lazy preparation -/
+
+/-- **Full statement**: no step at all changes any observable attribute of a pre-existing class. -/
+def C06_Full : Prop :=
+  ∀ (σ : State) (s : Step) (c : ClassId) (a : Attr), WF σ → c < σ.classes.length →
+    deepLookup (step σ s).1 c a = deepLookup σ c a
+
+/-- the first plain instantiation of a lazily prepared compound type (DateYYYYMMDD) writes the
+    generated members into `field_schema` of the class being instantiated -/
+theorem C06_full_fails : ¬ C06_Full := by
+  intro h
+  have := h (initState .compound []) (.inst 0 []) 0 .fieldSchema (WF_of_wfB _ (by decide)) (by decide)
+  revert this
+  decide
+
+/-- non-vacuity of `frame`: a reachable, well-formed store with a derivation chain, shared
+    inherited lists and a prepared compound; every kind of step satisfies the hypothesis except
+    the first plain instantiation of an unprepared compound -/
+def exSteps : List Step :=
+  [.validatedBy false 0 [1, 2], .includingValidators false 1 [3] (some (-4)), .named 2 (some ['x']),
+   .using 3 [(.attr .optional, .bool true), (.properties, .pairs [(['a'], 1)])],
+   .withProperties 4 [(['b'], 2)], .inst 0 [], .using 0 [(.attr .optional, .bool true)], .inst 6 []]
+
+def exState : State := (run (initState .compound []) exSteps).1
+
+theorem exState_wf : WF exState := WF_of_wfB _ (by decide)
+
+example : lazyPrep exState (.includingValidators false 2 [9] none) = none := by decide
+example : lazyPrep exState (.inst 0 []) = none := by decide          -- already prepared
+example : lazyPrep exState (.inst 5 []) = some 5 := by decide        -- would be prepared now
+example : observe (step exState (.includingValidators false 2 [9] (some 0))).1 2 = observe exState 2 :=
+  frame_observe exState exState_wf _ (by decide) 2 (by decide)
+/-- the step is not a no-op: the new class differs from its parent -/
+example : deepLookup (step exState (.includingValidators false 2 [9] (some 0))).1 7 .validators
+    = .list [.label 9, .label 1, .label 3, .label 2] := by decide
+/-- history independence on this store: class 6 = class 0.using(optional=True), derived *after*
+    class 0 was prepared, regenerates optional members (fix 71fc8fd) -/
+example : deepLookup exState 6 .fieldSchema
+    = .list [.gen "year".toList "%04i".toList true, .gen "month".toList "%02i".toList true,
+             .gen "day".toList "%02i".toList true] := by decide
+
 end Flatland.C06.Proofs
